@@ -84,7 +84,6 @@ Record ebst := {
   e_batches : list EB.obj; e_last_batch : Z;     (* OutgoingTxBatch by block 0x21 / confirms 0x22 / LastSlashedBatchBlock 0x30 *)
   e_bcalls : list EB.obj;  e_last_bcall : Z;     (* OutgoingBridgeCall 0x48 / confirms 0x45 / LastSlashedBridgeCallNonce 0x46 *)
   e_next_bcall : Z;                              (* next bridge call nonce *)
-  e_confirm_by : list (Z * Z * (Z * Z));         (* (kind, key, (external id, bridger id)): the bridger_address stored in each confirmation *)
   e_slash_h : Z;                                 (* LastOracleSlashBlockHeight 0x37 *)
   e_window : Z;                                  (* Params.SignedWindow *)
   e_height : Z                                   (* ctx.BlockHeight() of the block being built *)
@@ -92,7 +91,7 @@ Record ebst := {
 
 Definition eb_init : ebst :=
   {| e_osets := []; e_last_oset := 0; e_batches := []; e_last_batch := 0; e_bcalls := []; e_last_bcall := 0;
-     e_next_bcall := 1; e_confirm_by := []; e_slash_h := 0; e_window := 30000; e_height := 1 |}.
+     e_next_bcall := 1; e_slash_h := 0; e_window := 30000; e_height := 1 |}.
 
 Record st := {
   proposal : list Z;                 (* ProposalOracle.Oracles                  (0x38) *)
@@ -392,19 +391,19 @@ Definition with_eb (s : st) (e : ebst) : st :=
 
 Definition set_osets (e : ebst) (l : list EB.obj) : ebst :=
   {| e_osets := l; e_last_oset := e_last_oset e; e_batches := e_batches e; e_last_batch := e_last_batch e;
-     e_bcalls := e_bcalls e; e_last_bcall := e_last_bcall e; e_next_bcall := e_next_bcall e; e_confirm_by := e_confirm_by e;
+     e_bcalls := e_bcalls e; e_last_bcall := e_last_bcall e; e_next_bcall := e_next_bcall e;
      e_slash_h := e_slash_h e; e_window := e_window e; e_height := e_height e |}.
 Definition set_batches (e : ebst) (l : list EB.obj) : ebst :=
   {| e_osets := e_osets e; e_last_oset := e_last_oset e; e_batches := l; e_last_batch := e_last_batch e;
-     e_bcalls := e_bcalls e; e_last_bcall := e_last_bcall e; e_next_bcall := e_next_bcall e; e_confirm_by := e_confirm_by e;
+     e_bcalls := e_bcalls e; e_last_bcall := e_last_bcall e; e_next_bcall := e_next_bcall e;
      e_slash_h := e_slash_h e; e_window := e_window e; e_height := e_height e |}.
 Definition set_bcalls (e : ebst) (l : list EB.obj) (next : Z) : ebst :=
   {| e_osets := e_osets e; e_last_oset := e_last_oset e; e_batches := e_batches e; e_last_batch := e_last_batch e;
-     e_bcalls := l; e_last_bcall := e_last_bcall e; e_next_bcall := next; e_confirm_by := e_confirm_by e;
+     e_bcalls := l; e_last_bcall := e_last_bcall e; e_next_bcall := next;
      e_slash_h := e_slash_h e; e_window := e_window e; e_height := e_height e |}.
 Definition set_window (e : ebst) (w : Z) : ebst :=
   {| e_osets := e_osets e; e_last_oset := e_last_oset e; e_batches := e_batches e; e_last_batch := e_last_batch e;
-     e_bcalls := e_bcalls e; e_last_bcall := e_last_bcall e; e_next_bcall := e_next_bcall e; e_confirm_by := e_confirm_by e;
+     e_bcalls := e_bcalls e; e_last_bcall := e_last_bcall e; e_next_bcall := e_next_bcall e;
      e_slash_h := e_slash_h e; e_window := w; e_height := e_height e |}.
 
 Definition mk_obj (key height : Z) (confirms : list Z) : EB.obj :=
@@ -422,21 +421,14 @@ Fixpoint add_confirm (key ext : Z) (l : list EB.obj) : option (list EB.obj) :=
       else match add_confirm key ext r with Some r' => Some (x :: r') | None => None end
   end.
 
-Definition log_confirm (e : ebst) (kind key ext b : Z) : ebst :=
-  {| e_osets := e_osets e; e_last_oset := e_last_oset e; e_batches := e_batches e; e_last_batch := e_last_batch e;
-     e_bcalls := e_bcalls e; e_last_bcall := e_last_bcall e; e_next_bcall := e_next_bcall e;
-     e_confirm_by := e_confirm_by e ++ [(kind, key, (ext, b))];
-     e_slash_h := e_slash_h e; e_window := e_window e; e_height := e_height e |}.
-
 Definition confirm (s : st) (kind key ext : Z) : st * res :=
   match aget Z.eqb ext (by_ext s) with
   | None => (s, Err E_NoOracle)
   | Some o =>
     match aget Z.eqb o (oracles s) with
     | None => (s, Err E_NoOracle)
-    | Some rec =>
-      let kind := if kind =? 0 then 0 else if kind =? 1 then 1 else 2 in
-      let e := log_confirm (eb s) kind key ext (o_bridger rec) in
+    | Some _ =>
+      let e := eb s in
       if kind =? 0 then
         match add_confirm key ext (e_osets e) with
         | None => (s, Err E_Invalid) | Some l => (with_eb s (set_osets e l), Ok) end
@@ -513,7 +505,6 @@ Definition end_block (s : st) (newset : bool) : st * res :=
           eb := {| e_osets := osets1; e_last_oset := EB.r_oset_cursor r;
                    e_batches := e_batches e; e_last_batch := EB.r_batch_cursor r;
                    e_bcalls := e_bcalls e; e_last_bcall := EB.r_bcall_cursor r; e_next_bcall := e_next_bcall e;
-                   e_confirm_by := e_confirm_by e;
                    e_slash_h := EB.r_last_slash_height r; e_window := e_window e; e_height := h + 1 |} |}, Ok)
   end.
 
@@ -524,20 +515,18 @@ Definition end_block (s : st) (newset : bool) : st * res :=
    imported attestations, through GetLastEventNonceByOracle — so only for votes at nonces above lastObserved-1),
    outgoing bridge calls, their confirmations and cursor, the bridge-call counter, LastOracleSlashBlockHeight.
    InitGenesis re-creates the two indexes from the records, recomputes the total AFTER writing the records, and
-   keeps a confirmation only if its bridger_address is the bridger of some imported oracle record. *)
+   keeps a confirmation only if its external address belongs to some imported oracle record (/repo 3bd6d6b). *)
 Definition rebuild_votes (c : cfg) (lobs nonce : Z) (votes : list Z) (lb : list (Z * Z)) : list (Z * Z) :=
   fold_left (fun lb v => if cur c lobs lb v <? nonce then aset Z.eqb v nonce lb else lb) votes lb.
 Definition rebuild_cursors (c : cfg) (lobs : Z) (ats : list ((Z * Z) * att)) : list (Z * Z) :=
   fold_left (fun lb p => rebuild_votes c lobs (fst (fst p)) (a_votes (snd p)) lb) ats [].
 
-Definition confirm_kept (s : st) (kind key ext : Z) : bool :=
-  existsb (fun q : Z * Z * (Z * Z) =>
-             (fst (fst q) =? kind) && (snd (fst q) =? key) && (fst (snd q) =? ext) &&
-             existsb (fun p : Z * oracle => o_bridger (snd p) =? snd (snd q)) (oracles s))
-          (e_confirm_by (eb s)).
-Definition import_objs (s : st) (kind : Z) (l : list EB.obj) : list EB.obj :=
-  map (fun x => mk_obj (EB.ob_key x) (EB.ob_height x)
-                       (filter (fun ext => confirm_kept s kind (EB.ob_key x) ext) (EB.ob_confirms x))) l.
+(* a confirmation is filed under the oracle that owns its external address (looked up in the re-created index);
+   a confirmation whose external address belongs to no imported record is dropped *)
+Definition confirm_kept (s : st) (ext : Z) : bool :=
+  existsb (fun p : Z * oracle => o_ext (snd p) =? ext) (oracles s).
+Definition import_objs (s : st) (l : list EB.obj) : list EB.obj :=
+  map (fun x => mk_obj (EB.ob_key x) (EB.ob_height x) (filter (confirm_kept s) (EB.ob_confirms x))) l.
 
 Definition export_import (c : cfg) (s : st) : st :=
   let e := eb s in
@@ -547,13 +536,9 @@ Definition export_import (c : cfg) (s : st) : st :=
      last_total := online_power (oracles s); last_obs := last_obs s;
      last_by := rebuild_cursors c (last_obs s) (atts s);
      atts := atts s; pending := []; applied := applied s; effects := effects s; vlog := vlog s;
-     eb := {| e_osets := import_objs s 0 (e_osets e); e_last_oset := e_last_oset e;
-              e_batches := import_objs s 1 (e_batches e); e_last_batch := e_last_batch e;
+     eb := {| e_osets := import_objs s (e_osets e); e_last_oset := e_last_oset e;
+              e_batches := import_objs s (e_batches e); e_last_batch := e_last_batch e;
               e_bcalls := []; e_last_bcall := 0; e_next_bcall := 1;
-              e_confirm_by := filter (fun q : Z * Z * (Z * Z) =>
-                                        negb (fst (fst q) =? 2) &&
-                                        existsb (fun p : Z * oracle => o_bridger (snd p) =? snd (snd q)) (oracles s))
-                                     (e_confirm_by e);
               e_slash_h := 0; e_window := e_window e; e_height := e_height e |} |}.
 
 (* ---------- operations ---------- *)
